@@ -37,6 +37,33 @@ theorem C33_holder_owns_path (c : DLCfg) (hc : c.Good) (s : St) (hr : Reachable 
   have hinv := Inv.reachable hc s hr
   exact ⟨hinv.heldName i t ht hp, hinv.thrLock i t ht (by simp [hp, inLock])⟩
 
+/-- **Release called twice is harmless** (after a successful Release and after one that reported
+an error, e.g. a transient failure of the unlink): the DirLock has dropped its handle, the second
+call changes nothing — in particular it cannot unlink the LOCK file of, or unlock, another holder.
+(`C33_exclusive` itself already quantifies over contenders whose unlink fails: `spawnF`.) -/
+theorem C33_double_release (c : DLCfg) (hc : c.Good) (s : St) (hr : Reachable (sys c) s)
+    (i : Nat) (t : Thr) (ht : s.thr i = some t) (hp : t.pc = .done) :
+    DirLock.step c s (.run i) = some s := by
+  have hinv := Inv.reachable hc s hr
+  have hh := (hinv.fin i t ht).1 hp
+  simp [DirLock.step, ht, stepThr, hp, hh]
+
+/-- If Release keeps its handle when it reports an error (`releaseClearsOnError = false`), a retried
+Release breaks exclusion: A's unlink fails once, A unlocks and closes; B acquires the leftover LOCK
+file; A retries Release and unlinks LOCK — now B's file; C creates a fresh LOCK and is admitted. -/
+theorem C33_fails_retry_keeps_handle (c : DLCfg) (hc : c = ⟨.removeUnlockClose, true, false⟩) :
+    ∃ s, Reachable (sys c) s ∧ Holds s 1 ∧ Holds s 2 := by
+  subst hc
+  refine ⟨run (sys ⟨.removeUnlockClose, true, false⟩) initSt
+    [ .spawnF 0, .run 0, .run 0, .run 0,      -- A holds
+      .run 0, .run 0, .run 0,                 -- A.Release: unlink fails, unlock, close; error, handle kept
+      .spawn 1, .run 1, .run 1, .run 1,       -- B: open (the leftover file), flock, re-check ok: holds
+      .run 0, .run 0, .run 0,                 -- A retries Release: unlinks LOCK (B's file); EBADF; EBADF
+      .spawn 2, .run 2, .run 2, .run 2 ],     -- C: creates a new LOCK, flock, re-check ok: holds too
+    run_reachable _ _ (.init rfl) _, ?_, ?_⟩
+  · exact ⟨⟨.held, 0, false, false, false⟩, by decide, rfl⟩
+  · exact ⟨⟨.held, 1, false, false, false⟩, by decide, rfl⟩
+
 /-! ### as-is: unlock before unlink, no re-check (finding `dirlock-unlock-before-unlink`) -/
 
 /-- A unlocks; B opens the old inode and locks it; A closes and unlinks LOCK; C creates a new
@@ -48,25 +75,25 @@ def witness : List Act :=
     .run 0, .run 0,                       -- A.Release: close, remove(LOCK)
     .spawn 2, .run 2, .run 2, .run 2 ]    -- C: open creates inode 1, flock succeeds: holds too
 
-theorem C33_fails_asis (c : DLCfg) (hc : c = ⟨.unlockCloseRemove, false⟩) :
+theorem C33_fails_asis (c : DLCfg) (hc : c = ⟨.unlockCloseRemove, false, true⟩) :
     ∃ s, Reachable (sys c) s ∧ Holds s 1 ∧ Holds s 2 := by
   subst hc
-  refine ⟨run (sys ⟨.unlockCloseRemove, false⟩) initSt witness, run_reachable _ _ (.init rfl) _, ?_, ?_⟩
-  · exact ⟨⟨.held, 0⟩, by decide, rfl⟩
-  · exact ⟨⟨.held, 1⟩, by decide, rfl⟩
+  refine ⟨run (sys ⟨.unlockCloseRemove, false, true⟩) initSt witness, run_reachable _ _ (.init rfl) _, ?_, ?_⟩
+  · exact ⟨⟨.held, 0, false, false, false⟩, by decide, rfl⟩
+  · exact ⟨⟨.held, 1, false, false, false⟩, by decide, rfl⟩
 
 /-- Neither half of the repair suffices alone: with the unlink moved under the lock but no
 re-check, a contender that opened the old inode before the unlink still gets its flock. -/
-theorem C33_fails_without_recheck (c : DLCfg) (hc : c = ⟨.removeUnlockClose, false⟩) :
+theorem C33_fails_without_recheck (c : DLCfg) (hc : c = ⟨.removeUnlockClose, false, true⟩) :
     ∃ s, Reachable (sys c) s ∧ Holds s 1 ∧ Holds s 2 := by
   subst hc
-  refine ⟨run (sys ⟨.removeUnlockClose, false⟩) initSt
+  refine ⟨run (sys ⟨.removeUnlockClose, false, true⟩) initSt
     [ .spawn 0, .run 0, .run 0, .run 0, .spawn 1, .run 1,      -- A holds; B has opened inode 0
       .run 0, .run 0, .run 0,                                  -- A: remove, unlock, close
       .run 1, .run 1,                                          -- B: flock on the orphan inode: holds
       .spawn 2, .run 2, .run 2, .run 2 ], run_reachable _ _ (.init rfl) _, ?_, ?_⟩
-  · exact ⟨⟨.held, 0⟩, by decide, rfl⟩
-  · exact ⟨⟨.held, 1⟩, by decide, rfl⟩
+  · exact ⟨⟨.held, 0, false, false, false⟩, by decide, rfl⟩
+  · exact ⟨⟨.held, 1, false, false, false⟩, by decide, rfl⟩
 
 /-! ### non-vacuity -/
 
